@@ -15,7 +15,10 @@ Decided clauses, per listener program, on SSA-form IR:
       that free() dominates;
   K7  an index or copy length computed from the receive count stays inside the
       object for every count the dominating comparisons allow (interval of the
-      count: -1 .. receive length, refined edge by edge).
+      count: -1 .. receive length, refined edge by edge);
+  K8  an offset fixed by the control flow alone (constants, additions, phis)
+      stays inside the object it indexes - an offset not reset on every path
+      round the receive loop accumulates from datagram to datagram.
 Not decided: everything else in the statement (absence of every memory error,
 termination in general, liveness after a bad datagram)."""
 from .. import build, irparse, taint
@@ -58,8 +61,10 @@ def run(tier, res):
         fs = an.findings()
         res.ok(max(nsinks - len(fs), 0))
         ordinal = {}
-        for f in sorted(fs, key=lambda x: (x['fn'], x['loc'][1], x['kind'])):
-            base = '%s:%s:%s' % (name, f['fn'], f['kind'])
+        # a finding is identified by the program, the clause and its rank in source order - not by the function it
+        # sits in, so that moving the same flow into a helper function does not make it a different finding
+        for f in sorted(fs, key=lambda x: (x['loc'][0], x['loc'][1], x['kind'])):
+            base = '%s:%s' % (name, f['kind'])
             ordinal[base] = ordinal.get(base, 0) + 1
             key = '%s#%d' % (base, ordinal[base])
             res.violation(key, '%s:%s %s (%s): %s' % (f['loc'][0], f['loc'][1], f['fn'], name, f['text']))
@@ -69,7 +74,7 @@ def run(tier, res):
     if total_recv < floors.get('C18_min_recv_calls', 6):
         raise Broken('only %d receive calls found over all listeners' % total_recv)
     res.explanation = __doc__
-    res.rule = 'K1-K7 as in the module docstring, over %d listener programs' % len(LISTENERS)
+    res.rule = 'K1-K8 as in the module docstring, over %d listener programs' % len(LISTENERS)
     build.cleanup()
     return res
 
